@@ -42,6 +42,13 @@ CLAIMS["C09"] = ("Lean theorems: for ARBITRARY bytes the reader model never reac
 CLAIMS["C16"] = ("Lean theorems: an exposing element sees every entry of its own stream (own statements win) and otherwise only entries of its ancestors below the root — its device — never a sibling stream's, another device's or another payload's (sees_own_and_ancestors, root_level_copies_nothing, container_starts_fresh, payload_isolated); restating a key replaces the earlier value and touches no other key (restated_replaces, set_other); which keys store and which elements expose metadata is the regenerated key table (tables_tie, metadata_keys, exposing_keys). Tie: every element's Metadata map dumped key-sorted and compared on generated device/stream/metadata histories.",
                  "Trusted: Lean kernel; translator + harness; Go map aliasing modelled by alias resolution.")
 
+CLAIMS["C17"] = ("PARTIAL. Lean theorems: enlarging the tolerance never turns a hit into a miss, for ANY comparison that is transitive at the tolerance — hence for float64 too (tol_monotone) — and the haversine tolerance is monotone in the tolerance (havTol_monotone); end caps: d ≤ hav(tol/R) iff great-circle distance to the end point ≤ tol (end_cap_iff), positions within tolerance of an end point are hits (end_caps), far cross-track positions are misses; havSin x = hav(arcsin x) exactly; end-cap and segment-length quantities are symmetric in the end points. Over ℝ via Mathlib. The full equivalence with distance-to-segment and the 1% + 0.1 mm guard band are established by sampling against an independent vector oracle (every case also checks end-point order independence and 2x tolerance).",
+                 "Trusted: Lean kernel + Mathlib axioms (propext, Classical.choice, Quot.sound); harness oracle; libm. onLine_sound/onLine_complete not proved.")
+CLAIMS["C18"] = ("PARTIAL. Lean theorems over ℝ: the default method returns exactly radius × arccos⟨u₁,u₂⟩ (distance_is_great_circle, via the haversine chord identity and invHav∘hav = id on [0,π]); symmetric; zero iff ⟨u₁,u₂⟩ = 1; linear in the radius; the fast method is symmetric, linear in the radius and exact along meridians. Numeric error bounds (1e-9, 1e-5, 1%) are float64 properties and are sampled against an independent oracle, incl. DistanceToLine at all latitudes/bearings.",
+                 "Trusted: Lean kernel + Mathlib; harness oracle; libm.")
+CLAIMS["C19"] = ("PARTIAL. Lean theorems over ℝ: the plane point IntersectExt computes lies on both lines whenever they are not parallel (homogeneous_meet, Cramer); lines pass through their end points; swapping a segment's end points does not move it; sameDirection: equal or close azimuths agree, opposite ones do not; Intersect reports the point iff both azimuth pairs agree, i.e. inside both segments, and errors when outside either (intersect_decision, inside_both_is_reported, outside_either_is_error). Projection round-trip accuracy, the 1 mm / 1e-6° claims and NaN beyond the horizon are sampled with the real geodesic library on constructed crossings.",
+                 "Trusted: Lean kernel + Mathlib; tidwall/geodesic as reference solver; harness.")
+
 NA_REASON = "check under construction in this round (design in DESIGN.md); will be claimed once its model, theorems and correspondence exist"
 
 
@@ -81,7 +88,7 @@ def main():
     print("claimed:", " ".join(claimed))
 
 
-HOOK_COMMITS = ["b48bb30"]
+HOOK_COMMITS = ["b48bb30", "2ccd6b5"]
 
 if __name__ == "__main__":
     main()
